@@ -29,7 +29,20 @@ def load_detector(detector: Detector, filename: str | Path) -> None:
             f" '{type(detector).__name__}', expected '{type(new_detector).__name__}'"
         )
 
-    detector = new_detector
+    # Replace the data of the running detector with the data from 'new_detector'
+    # Note: Re-binding the local variable 'detector' has no effect for the caller
+    for name in (
+        "_scene",
+        "_photon",
+        "_charge",
+        "_pixel",
+        "_signal",
+        "_image",
+        "_data",
+        "_phase",
+    ):
+        if hasattr(new_detector, name):
+            setattr(detector, name, getattr(new_detector, name))
 
 
 def save_detector(detector: Detector, filename: str | Path) -> None:
